@@ -57,6 +57,7 @@ type vUserFile struct {
 }
 
 type vHandle struct {
+	failed bool // an I/O error on a handle is persistent
 	f      *os.File
 	node   *vNode
 	pos    int
@@ -257,7 +258,8 @@ func vFileRead(f *os.File, p []byte) (int, error) {
 	if h.pos >= len(h.node.content) {
 		return 0, io.EOF
 	}
-	if vFault("read") {
+	if h.failed || vFault("read") {
+		h.failed = true
 		return 0, &os.PathError{Op: "read", Path: h.node.name, Err: vErrIO}
 	}
 	n := copy(p, h.node.content[h.pos:])
@@ -404,12 +406,16 @@ func vHolds(u *vUserFile) bool {
 		if vEqual(c, vPacked('X', u.data)) || vEqual(c, vPacked('L', u.data)) {
 			return true // complete compressed form
 		}
+		if vEqual(c, vPacked('X', u.content)) || vEqual(c, vPacked('L', u.content)) {
+			return true // the file as it was, compressed completely
+		}
 	}
 	return false
 }
 
 func vMutation(what string) {
 	vMutated++
+	vObs("fs: "+what, uint64(vMutated))
 	for i := range vUser {
 		u := &vUser[i]
 		if len(u.data) == 0 && u.content[1] != 'v' {
@@ -432,6 +438,7 @@ var vSetOpts func(o *options)
 func vInit(o *options) { vOpts = o; vSetOpts(o) }
 
 func vExit(code int) {
+	vObs("exit", uint64(code))
 	vExitCode = code
 	vExited = true
 	vFinal()
